@@ -130,7 +130,8 @@ PROPS = {
         level_text=('Structural half of the round-trip property for all 127 state types; format assumption stated.'),
     ),
     'C14': dict(
-        rules=[r_counters.s08_monotone_counters, lambda ctx: r_mirror.s04_mirror_siblings(ctx, which=('cross::CrossAbove', 'reversal::Upper'))],
+        rules=[r_counters.s08_monotone_counters, lambda ctx: r_mirror.s04_mirror_siblings(ctx, which=('cross::CrossAbove', 'reversal::Upper')),
+               lambda ctx: r_step.s07_step_once(ctx, only_types=('Cross', 'ReversalSignal'), rule_id='S07c')],
         feature_sets=_sets(['default']),
         explanation=('(S04) CrossUnder and LowerReversalSignal are, function by function, the HIR mirror image of CrossAbove and UpperReversalSignal under the swap >=/<=, >/< on float operands, max/min and the declared names ("exactly in the mirrored case"). Decides the clause "streams much longer than PeriodType::MAX" for the detectors: no position field of the crossing / '
                      'reversal detectors (nor of any other method) is a capacity-limited monotone counter (S08).'),
@@ -141,20 +142,23 @@ PROPS = {
         level_text='Mirror clause and any-stream-length clause decided structurally; the max-side definitions themselves are not.',
     ),
     'C16': dict(
-        rules=[r_action.s22_eq_vs_ord],
+        rules=[r_action.s22_eq_vs_ord, r_action.a05_action_algebra],
         feature_sets=_sets(['default']),
         explanation=('(S22) for every enum with a hand-written PartialEq next to a derived Ord/PartialOrd (Action), every path of eq() is '
                      'classified by the variants of both operands: pairs of different variants must return false and same-variant pairs '
-                     'must return equality of the payloads, because the derived comparison is Equal exactly then.'),
-        not_decided=['totality, saturation, monotonicity and the ratio laws over all f32/f64/i8 values (finite value-level facts better '
-                     'enumerated dynamically): not decided',
-                     'Buy/Sell symmetry of Neg, Sub, From<f64> (rule S04) when armed'],
+                     'must return equality of the payloads, because the derived comparison is Equal exactly then. (A05) abstract interpretation of every '
+                     'public Action function and conversion with unconstrained inputs: no panic/overflow is reachable (totality for every i8, f32, f64, '
+                     'NaN and infinities included); with the input pinned to a sign class the result variant set is the one the ratio law demands: '
+                     'From<f64/f32/i8> positive -> Buy, negative -> Sell, NaN/0 -> None; -Buy = Sell; a - b in {Buy} for Buy - Sell, {Sell} for Sell - Buy, ...'),
+        not_decided=['magnitudes: saturation value, monotonicity, from(ratio(a)) == a and the exact ratio of a - b are value-level facts (finite domain, better '
+                     'enumerated dynamically): not decided; A05 decides totality and signs only',
+                     ],
         assumptions=TRUST + ['derive(PartialOrd, Ord) compares discriminants first, then payloads (documented behaviour)'],
         technique='static analysis: per-path variant-pair classification of eq() on MIR against the derived ordering',
         level_text='Decides the clause "equality is an equivalence relation with which the ordering is consistent" structurally.',
     ),
     'C18': dict(
-        rules=[r_tables.s18_source_tables, r_tables.s06_ma_dispatch,
+        rules=[r_tables.s18_source_tables, r_tables.s18b_clv_zero_range, r_tables.s06_ma_dispatch,
                lambda ctx: r_absint.a01_constructors(ctx, groups=('parser',), rule_id='A01p', min_entries=4,
                    title='Source::from_str, MA::from_str and the TryFrom conversions reach no panic for any text')],
         feature_sets=_sets(['default']),
